@@ -37,7 +37,7 @@ func ovRes(cpu string) corev1.ResourceRequirements {
 	return corev1.ResourceRequirements{Requests: corev1.ResourceList{corev1.ResourceCPU: resource.MustParse(cpu)}}
 }
 
-var ovCPUs = []string{"100m", "250m", "1", "2500m"}
+var ovCPUs = []string{"100m", "250m", "1", "2500m", "1000m", "0.5"} // incl. valid non-canonical spellings
 
 var ovSelectors = []map[string]string{{"zone": "a"}, {"zone": "b"}, {"role": "agent"}, {"zone": "c", "role": "agent"}}
 
